@@ -37,7 +37,11 @@ def salts(draw):
     if k < 2:
         return None
     if k < 5:
-        return draw(st.sampled_from(["s", "", "é", "É", "salt-日本", "\U0001f9ea", "a'b", 'a"b', "\\", "tab\there", "\x00", "\x7f", "%s", "{}", "a\rb", "\r", "\x0c", "\u2028", "\x85z", "s" * 300, "007", "1e3", "nan"]))
+        return draw(st.sampled_from(["s", "", "é", "É", "salt-日本", "\U0001f9ea", "a'b", 'a"b', "\\", "tab\there", "\x00", "\x7f", "%s", "{}", "a\rb", "\r", "\x0c", "\u2028", "\x85z", "s" * 300, "007", "1e3", "nan",
+                                     'say """hi"""', '"""', "'''", '""', "''", '""""""', "x\\", '\\"', "\\\\", "#", "# x", "\\N{DASH}", "\\x41", "\\u0041", "{{}}", "}{", "$", "`"]))
+    if k < 6:
+        # runs of quotes / backslashes / braces / percent signs (doc strings, raw strings, templates)
+        return draw(st.text(alphabet=draw(st.sampled_from(['"\\', "'\\", '"{}%', "'# \\"])), min_size=1, max_size=8))
     s = draw(st.text(alphabet=st.characters(exclude_categories=["Cs"], exclude_characters=M.LINE_BREAKS), max_size=20))
     return s
 
